@@ -91,8 +91,17 @@ def run_native(scratch, spec, testname, testcode, profile="dev"):
         shutil.copytree(kanirun.REPO, repo, ignore=shutil.ignore_patterns("target", ".git", "examples"))
         mp = os.path.join(repo, "Cargo.toml")
         env["MIPIDSI_VERIF_INCRATE"] = os.path.join(base, "incrate")
-    with open(src, "a") as f:
-        f.write("\n" + testcode + "\n")
+    if manifest == "kani":
+        with open(src, "a") as f:
+            f.write("\n" + testcode + "\n")
+    else:
+        # in-crate proofs live inside `mod proofs { .. }`: insert before the final closing brace
+        t = open(src).read().rstrip()
+        assert t.endswith("}")
+        # mipidsi is #![no_std]: name std's Vec explicitly in the generated test
+        tc = testcode.replace("Vec<Vec<u8>>", "std::vec::Vec<std::vec::Vec<u8>>").replace("vec![", "std::vec![")
+        tc = re.sub(r"(fn kani_concrete_playback_\w+\(\) \{)", r"\1\n    extern crate std;", tc)
+        open(src, "w").write(t[:-1] + "\n" + tc + "\n}\n")
     env["CARGO_TARGET_DIR"] = os.path.join(base, "target")
     if profile == "release":
         env["CARGO_PROFILE_DEV_OPT_LEVEL"] = "3"
